@@ -2,16 +2,23 @@ import RQ.Model.Series
 /-!
 # The series format: names survive being written to `.pc/applied-patches` and read back
 
-`PlainName n`: `n` is non-empty, has no (ASCII) whitespace byte and is valid UTF-8 — exactly the condition under which
+`PlainName n`: `n` is non-empty, has no Unicode `White_Space` character (`WsFree`: `wsLen` is 0 at every byte
+offset) and is valid UTF-8 — exactly the condition under which
 `readApplied (n ++ "\n") = [⟨n, default strip, forward⟩]` (`plainName_iff`).  A leading `#` is allowed: since the
 repair of `hash-named-patch`, `.pc/applied-patches` is read without the comment rule.  Every name `readSeries` (or
-`readApplied`) returns is plain (`readSeries_names_plain`): it is a whitespace-delimited token of a valid UTF-8 line,
-and cutting valid UTF-8 at ASCII bytes leaves valid UTF-8 (`validUtf8_prefix`, `validUtf8_append`).
+`readApplied`) returns is plain (`readSeries_names_plain`): it is a white-space-delimited token of a valid UTF-8 line,
+and cutting valid UTF-8 in front of a byte that is not a continuation byte — every white-space character starts with
+one (`wsLen_lead`) — and behind a complete character (`wsLen_valid`) leaves valid UTF-8 (`validUtf8_prefixC`,
+`validUtf8_append`).
+
+On valid UTF-8, "`wsLen` is 0 at every byte offset" is "no white-space character": the byte patterns of `wsLen` start
+with an ASCII byte or a lead byte, so they can match only where a character starts, and there they match exactly the
+white-space characters.
 -/
 namespace RQ.Series
 open RQ
 
-/-! ## UTF-8 validity and ASCII bytes -/
+/-! ## UTF-8 validity, ASCII bytes and lead bytes -/
 
 theorem validUtf8_cons (b : UInt8) (rest : Bytes) : validUtf8 (b :: rest) =
     (if b < 0x80 then validUtf8 rest
@@ -95,6 +102,28 @@ theorem validUtf8_append (y : Bytes) : ∀ a : Bytes, validUtf8 a = true → val
     rw [validUtf8_cons, if_neg hb, if_neg h2, if_neg h3, if_neg h4] at h
     cases h
 
+/-- a continuation byte (80..BF) -/
+def isCont (w : UInt8) : Bool := w ≥ 0x80 && w ≤ 0xBF
+
+theorem notCont_absurd {w lo hi : UInt8} (hw : isCont w = false) (hlo : 128 ≤ lo) (hhi : hi ≤ 191)
+    (h1 : w ≥ lo) (h2 : w ≤ hi) : False := by
+  unfold isCont at hw
+  simp only [Bool.and_eq_false_iff, decide_eq_false_iff_not] at hw
+  have a := UInt8.le_iff_toNat_le.mp hlo
+  have b := UInt8.le_iff_toNat_le.mp hhi
+  have c := UInt8.le_iff_toNat_le.mp h1
+  have d := UInt8.le_iff_toNat_le.mp h2
+  rw [ge_iff_le, UInt8.le_iff_toNat_le, UInt8.le_iff_toNat_le] at hw
+  simp at a b hw
+  omega
+
+theorem isCont_ascii {b : UInt8} (h : b < 128) : isCont b = false := by
+  unfold isCont
+  rw [UInt8.lt_iff_toNat_lt] at h
+  simp only [Bool.and_eq_false_iff, decide_eq_false_iff_not, ge_iff_le, UInt8.le_iff_toNat_le]
+  simp at h ⊢
+  omega
+
 theorem cont_false {w lo : UInt8} (hw : w < 128) (hlo : 128 ≤ lo) : decide (w ≥ lo) = false := by
   rw [decide_eq_false_iff_not]
   intro h
@@ -108,10 +137,17 @@ theorem lo3 (b : UInt8) : (128 : UInt8) ≤ (if b == 0xE0 then 0xA0 else 0x80 : 
   split <;> decide
 theorem lo4 (b : UInt8) : (128 : UInt8) ≤ (if b == 0xF0 then 0x90 else 0x80 : UInt8) := by
   split <;> decide
+theorem hi3 (b : UInt8) : (if b == 0xED then 0x9F else 0xBF : UInt8) ≤ 191 := by
+  split <;> decide
+theorem hi4 (b : UInt8) : (if b == 0xF4 then 0x8F else 0xBF : UInt8) ≤ 191 := by
+  split <;> decide
 
-theorem validUtf8_prefix (w : UInt8) (t : Bytes) (hw : w < 128) :
+/-- valid UTF-8 cut in front of a byte that is not a continuation byte (an ASCII byte or a lead byte): what is in
+front is valid UTF-8 -/
+theorem validUtf8_prefixC (w : UInt8) (t : Bytes) (hw : isCont w = false) :
     ∀ a : Bytes, validUtf8 (a ++ w :: t) = true → validUtf8 a = true := by
-  have c1 := cont_false hw (by decide : (128 : UInt8) ≤ 128)
+  have k0 : (128 : UInt8) ≤ 128 := by decide
+  have k1 : (191 : UInt8) ≤ 191 := by decide
   intro a
   induction a using validUtf8.induct with
   | case1 => intro _; exact validUtf8_nil
@@ -132,8 +168,8 @@ theorem validUtf8_prefix (w : UInt8) (t : Bytes) (hw : w < 128) :
     cases rest with
     | nil =>
       rw [List.cons_append, List.nil_append, validUtf8_cons, if_neg hb, if_pos h2] at h
-      simp only [c1, Bool.false_and] at h
-      cases h
+      simp only [Bool.and_eq_true, decide_eq_true_eq] at h
+      exact (notCont_absurd hw k0 k1 h.1.1 h.1.2).elim
     | cons c r => exact (hne c r rfl).elim
   | case5 b hb h2 h3 c d r ih =>
     intro h
@@ -150,12 +186,12 @@ theorem validUtf8_prefix (w : UInt8) (t : Bytes) (hw : w < 128) :
       cases t with
       | nil => cases h
       | cons d r =>
-        simp only [cont_false hw (lo3 b), Bool.false_and] at h
-        cases h
+        simp only [Bool.and_eq_true, decide_eq_true_eq] at h
+        exact (notCont_absurd hw (lo3 b) (hi3 b) h.1.1.1.1 h.1.1.1.2).elim
     | [c], _ =>
       rw [List.cons_append, List.cons_append, List.nil_append, validUtf8_cons, if_neg hb, if_neg h2, if_pos h3] at h
-      simp only [c1, Bool.and_false, Bool.false_and] at h
-      cases h
+      simp only [Bool.and_eq_true, decide_eq_true_eq] at h
+      exact (notCont_absurd hw k0 k1 h.1.1.2 h.1.2).elim
     | c :: d :: r, hne => exact (hne c d r rfl).elim
   | case7 b hb h2 h3 h4 c d e r ih =>
     intro h
@@ -175,26 +211,31 @@ theorem validUtf8_prefix (w : UInt8) (t : Bytes) (hw : w < 128) :
       | [] => cases h
       | [_] => cases h
       | d :: e :: r =>
-        simp only [cont_false hw (lo4 b), Bool.false_and] at h
-        cases h
+        simp only [Bool.and_eq_true, decide_eq_true_eq] at h
+        exact (notCont_absurd hw (lo4 b) (hi4 b) h.1.1.1.1.1.1 h.1.1.1.1.1.2).elim
     | [c], _ =>
       rw [List.cons_append, List.cons_append, List.nil_append, validUtf8_cons, if_neg hb, if_neg h2, if_neg h3,
         if_pos h4] at h
       match t with
       | [] => cases h
       | e :: r =>
-        simp only [c1, Bool.and_false, Bool.false_and] at h
-        cases h
+        simp only [Bool.and_eq_true, decide_eq_true_eq] at h
+        exact (notCont_absurd hw k0 k1 h.1.1.1.1.2 h.1.1.1.2).elim
     | [c, d], _ =>
       rw [List.cons_append, List.cons_append, List.cons_append, List.nil_append, validUtf8_cons, if_neg hb, if_neg h2,
         if_neg h3, if_pos h4] at h
-      simp only [c1, Bool.and_false, Bool.false_and] at h
-      cases h
+      simp only [Bool.and_eq_true, decide_eq_true_eq] at h
+      exact (notCont_absurd hw k0 k1 h.1.1.2 h.1.2).elim
     | c :: d :: e :: r, hne => exact (hne c d e r rfl).elim
   | case9 b rest hb h2 h3 h4 =>
     intro h
     rw [List.cons_append, validUtf8_cons, if_neg hb, if_neg h2, if_neg h3, if_neg h4] at h
     cases h
+
+/-- valid UTF-8 cut in front of an ASCII byte -/
+theorem validUtf8_prefix (w : UInt8) (t : Bytes) (hw : w < 128) :
+    ∀ a : Bytes, validUtf8 (a ++ w :: t) = true → validUtf8 a = true :=
+  validUtf8_prefixC w t (isCont_ascii hw)
 
 theorem validUtf8_ascii {w : UInt8} (hw : w < 128) (r : Bytes) : validUtf8 (w :: r) = validUtf8 r := by
   rw [validUtf8_cons, if_pos hw]
@@ -209,57 +250,239 @@ theorem isWs_ascii {b : UInt8} (h : isWs b = true) : b < 128 := by
     simp at this ⊢
     omega
 
+/-! ## `wsLen`: the white-space character at the head of a byte string -/
+
+/-- what `wsLen` says about the head of the string -/
+theorem wsLen_cases {b : UInt8} {bs : Bytes} {n : Nat} (h : wsLen (b :: bs) = n + 1) :
+    (isWs b = true ∧ n = 0) ∨ (∃ c r, bs = c :: r ∧ isWs2 b c = true ∧ n = 1) ∨
+      (∃ c d r, bs = c :: d :: r ∧ isWs3 b c d = true ∧ n = 2) := by
+  match bs with
+  | [] =>
+    rw [wsLen] at h
+    split at h
+    · rename_i hb; exact .inl ⟨hb, by omega⟩
+    · cases h
+  | [c] =>
+    rw [wsLen] at h
+    split at h
+    · rename_i hb; exact .inl ⟨hb, by omega⟩
+    · split at h
+      · rename_i hb; exact .inr (.inl ⟨c, [], rfl, hb, by omega⟩)
+      · cases h
+  | c :: d :: r =>
+    rw [wsLen] at h
+    split at h
+    · rename_i hb; exact .inl ⟨hb, by omega⟩
+    · split at h
+      · rename_i hb; exact .inr (.inl ⟨c, _, rfl, hb, by omega⟩)
+      · split at h
+        · rename_i hb; exact .inr (.inr ⟨c, d, r, rfl, hb, by omega⟩)
+        · cases h
+
+theorem wsLen_zero_isWs {b : UInt8} {r : Bytes} (h : wsLen (b :: r) = 0) : isWs b = false := by
+  match r with
+  | [] => rw [wsLen] at h; split at h <;> simp_all
+  | [c] => rw [wsLen] at h; split at h <;> simp_all
+  | c :: d :: r => rw [wsLen] at h; split at h <;> simp_all
+
+theorem wsLen_zero_isWs2 {b c : UInt8} {r : Bytes} (h : wsLen (b :: c :: r) = 0) : isWs2 b c = false := by
+  match r with
+  | [] => rw [wsLen] at h; repeat' split at h <;> simp_all
+  | d :: r => rw [wsLen] at h; repeat' split at h <;> simp_all
+
+theorem wsLen_zero_isWs3 {b c d : UInt8} {r : Bytes} (h : wsLen (b :: c :: d :: r) = 0) : isWs3 b c d = false := by
+  rw [wsLen] at h; repeat' split at h <;> simp_all
+
+/-- `wsLen` looks only at a prefix: what is no white space with more bytes following is none without them -/
+theorem wsLen_prefix : ∀ (s x : Bytes), wsLen (s ++ x) = 0 → wsLen s = 0
+  | [], _, _ => rfl
+  | [b], x, h => by
+    have := wsLen_zero_isWs (r := x) h
+    simp [wsLen, this]
+  | [b, c], x, h => by
+    have h1 := wsLen_zero_isWs (r := c :: x) h
+    have h2 := wsLen_zero_isWs2 (r := x) h
+    simp [wsLen, h1, h2]
+  | b :: c :: d :: r, x, h => by
+    have h1 := wsLen_zero_isWs (r := c :: d :: (r ++ x)) h
+    have h2 := wsLen_zero_isWs2 (r := d :: (r ++ x)) h
+    have h3 := wsLen_zero_isWs3 (r := r ++ x) h
+    simp [wsLen, h1, h2, h3]
+
+theorem isWs2_lead {b c : UInt8} (h : isWs2 b c = true) : b = 0xC2 := by
+  unfold isWs2 at h
+  simp only [Bool.and_eq_true, beq_iff_eq] at h
+  exact h.1
+
+theorem isWs3_lead {b c d : UInt8} (h : isWs3 b c d = true) : b = 0xE1 ∨ b = 0xE2 ∨ b = 0xE3 := by
+  unfold isWs3 at h
+  simp only [Bool.or_eq_true, Bool.and_eq_true, beq_iff_eq] at h
+  rcases h with ((h | h) | h) | h
+  · exact .inl h.1.1
+  · exact .inr (.inl h.1.1)
+  · exact .inr (.inl h.1.1)
+  · exact .inr (.inr h.1.1)
+
+/-- a white-space character starts with an ASCII byte or a lead byte, never with a continuation byte -/
+theorem wsLen_lead {b : UInt8} {bs : Bytes} {n : Nat} (h : wsLen (b :: bs) = n + 1) : isCont b = false := by
+  rcases wsLen_cases h with ⟨hb, _⟩ | ⟨c, r, _, hb, _⟩ | ⟨c, d, r, _, hb, _⟩
+  · exact isCont_ascii (isWs_ascii hb)
+  · rw [isWs2_lead hb]; decide
+  · rcases isWs3_lead hb with e | e | e <;> rw [e] <;> decide
+
+/-- behind a white-space character of valid UTF-8 the rest is valid UTF-8 (the pattern is a whole character) -/
+theorem wsLen_valid {b : UInt8} {bs : Bytes} {n : Nat} (h : wsLen (b :: bs) = n + 1)
+    (hv : validUtf8 (b :: bs) = true) : validUtf8 (bs.drop n) = true := by
+  rcases wsLen_cases h with ⟨hb, rfl⟩ | ⟨c, r, rfl, hb, rfl⟩ | ⟨c, d, r, rfl, hb, rfl⟩
+  · rw [validUtf8_ascii (isWs_ascii hb)] at hv
+    exact hv
+  · rw [isWs2_lead hb] at hv
+    rw [validUtf8_cons, if_neg (by decide), if_pos (by decide)] at hv
+    simp only [Bool.and_eq_true] at hv
+    exact hv.2
+  · have hv' : ∀ x : UInt8, x = 0xE1 ∨ x = 0xE2 ∨ x = 0xE3 → validUtf8 (x :: c :: d :: r) = true →
+        validUtf8 r = true := by
+      intro x hx hvx
+      rcases hx with e | e | e <;> subst e <;>
+        (rw [validUtf8_cons, if_neg (by decide), if_neg (by decide), if_pos (by decide)] at hvx
+         simp only [Bool.and_eq_true] at hvx
+         exact hvx.2)
+    exact hv' b (isWs3_lead hb) hv
+
 /-! ## tokens -/
 
-/-- no whitespace byte -/
-def WsFree (n : Bytes) : Prop := ∀ b ∈ n, isWs b = false
+/-- no white-space character: `wsLen` is 0 at every byte offset -/
+def wsFree : Bytes → Bool
+  | [] => true
+  | b :: bs => wsLen (b :: bs) == 0 && wsFree bs
 
-instance (n : Bytes) : Decidable (WsFree n) := inferInstanceAs (Decidable (∀ b ∈ n, isWs b = false))
+/-- no Unicode `White_Space` character (U+0009–U+000D, U+0020, U+0085, U+00A0, U+1680, U+2000–U+200A, U+2028, U+2029,
+U+202F, U+205F, U+3000 in UTF-8) starts at any byte offset -/
+def WsFree (n : Bytes) : Prop := wsFree n = true
+
+instance (n : Bytes) : Decidable (WsFree n) := inferInstanceAs (Decidable (wsFree n = true))
+
+/-- no white-space character starts inside `cur` when `bs` follows (the invariant of `splitWs bs cur`: `cur` may end
+in the middle of a character) -/
+def wsFreeIn : Bytes → Bytes → Bool
+  | [], _ => true
+  | c :: cs, bs => wsLen (c :: (cs ++ bs)) == 0 && wsFreeIn cs bs
+
+theorem wsFreeIn_snoc {b : UInt8} {bs : Bytes} (hb : wsLen (b :: bs) = 0) :
+    ∀ cur : Bytes, wsFreeIn cur (b :: bs) = true → wsFreeIn (cur ++ [b]) bs = true
+  | [], _ => by simp [wsFreeIn, hb]
+  | c :: cs, h => by
+    simp only [wsFreeIn, Bool.and_eq_true, beq_iff_eq] at h
+    simp only [List.cons_append, wsFreeIn, Bool.and_eq_true, beq_iff_eq, List.append_assoc]
+    exact ⟨h.1, wsFreeIn_snoc hb cs h.2⟩
+
+theorem wsFreeIn_wsFree (x : Bytes) : ∀ cur : Bytes, wsFreeIn cur x = true → wsFree cur = true
+  | [], _ => rfl
+  | c :: cs, h => by
+    simp only [wsFreeIn, Bool.and_eq_true, beq_iff_eq] at h
+    simp only [wsFree, Bool.and_eq_true, beq_iff_eq]
+    exact ⟨wsLen_prefix (c :: cs) x h.1, wsFreeIn_wsFree x cs h.2⟩
+
+theorem wsFreeIn_nil : ∀ cur : Bytes, wsFree cur = true → wsFreeIn cur [] = true
+  | [], _ => rfl
+  | c :: cs, h => by
+    simp only [wsFree, Bool.and_eq_true, beq_iff_eq] at h
+    simp only [wsFreeIn, Bool.and_eq_true, beq_iff_eq, List.append_nil]
+    exact ⟨h.1, wsFreeIn_nil cs h.2⟩
+
+/-- in particular no ASCII white-space byte -/
+theorem WsFree.isWs_false : ∀ {n : Bytes}, WsFree n → ∀ b ∈ n, isWs b = false
+  | [], _, _, hm => nomatch hm
+  | c :: cs, h, b, hm => by
+    unfold WsFree at h
+    simp only [wsFree, Bool.and_eq_true, beq_iff_eq] at h
+    rcases List.mem_cons.mp hm with rfl | hm
+    · exact wsLen_zero_isWs h.1
+    · exact WsFree.isWs_false (n := cs) h.2 b hm
 
 theorem splitWs_nil_cur (cur : Bytes) (h : cur ≠ []) : splitWs [] cur = [cur] := by
   cases cur with
   | nil => exact absurd rfl h
   | cons c cs => rfl
 
-/-- every token is non-empty, whitespace-free, and valid UTF-8 if the line is -/
-theorem splitWs_tokens : ∀ (bs cur : Bytes), WsFree cur → validUtf8 (cur ++ bs) = true →
-    ∀ t ∈ splitWs bs cur, t ≠ [] ∧ WsFree t ∧ validUtf8 t = true := by
-  intro bs
-  induction bs with
-  | nil =>
-    intro cur hc hv t ht
-    cases cur with
-    | nil => simp [splitWs] at ht
-    | cons c cs =>
-      simp only [splitWs, List.mem_singleton] at ht
-      subst ht
-      exact ⟨by simp, hc, by simpa using hv⟩
-  | cons b bs ih =>
-    intro cur hc hv t ht
-    rw [splitWs] at ht
-    by_cases hb : isWs b = true
-    · have hba := isWs_ascii hb
-      have hvc : validUtf8 cur = true := validUtf8_prefix b bs hba cur hv
-      have hvb : validUtf8 ([] ++ bs) = true := by
-        rw [validUtf8_append _ _ hvc, validUtf8_ascii hba] at hv
-        exact hv
-      simp only [hb, if_true] at ht
-      by_cases hce : cur.isEmpty = true
-      · simp only [hce, if_true] at ht
-        exact ih [] (fun _ h => nomatch h) hvb t ht
-      · simp only [hce, Bool.false_eq_true, if_false, List.mem_cons] at ht
-        rcases ht with rfl | ht
-        · exact ⟨by simpa using hce, hc, hvc⟩
-        · exact ih [] (fun _ h => nomatch h) hvb t ht
-    · simp only [hb, Bool.false_eq_true, if_false] at ht
-      refine ih (cur ++ [b]) ?_ (by rw [List.append_assoc]; exact hv) t ht
-      intro x hx
-      rcases List.mem_append.mp hx with h | h
-      · exact hc x h
-      · simp only [List.mem_singleton] at h
-        rw [h]; simpa using hb
+theorem splitWs_nil_nil : splitWs [] [] = [] := rfl
 
-/-- a whitespace-free non-empty line is one token -/
+/-- skipping `k` bytes with nothing collected is dropping them -/
+theorem splitWsSkip_drop : ∀ (k : Nat) (bs : Bytes), splitWsSkip k bs [] = splitWs (bs.drop k) []
+  | 0, _ => rfl
+  | k+1, [] => by simp [splitWsSkip, splitWs]
+  | k+1, _ :: bs => by
+    rw [splitWsSkip, List.drop_succ_cons]
+    exact splitWsSkip_drop k bs
+
+/-- a byte that starts no white-space character joins the current token -/
+theorem splitWs_cons_zero {b : UInt8} {bs : Bytes} (h : wsLen (b :: bs) = 0) (cur : Bytes) :
+    splitWs (b :: bs) cur = splitWs bs (cur ++ [b]) := by
+  unfold splitWs
+  rw [splitWsSkip, h]
+
+/-- a white-space character of `n + 1` bytes ends the current token (if there is one) and is skipped -/
+theorem splitWs_cons_ws {b : UInt8} {bs : Bytes} {n : Nat} (h : wsLen (b :: bs) = n + 1) (cur : Bytes) :
+    splitWs (b :: bs) cur =
+      if cur.isEmpty then splitWs (bs.drop n) [] else cur :: splitWs (bs.drop n) [] := by
+  rw [← splitWsSkip_drop]
+  unfold splitWs
+  rw [splitWsSkip, h]
+
+theorem splitWs_tokens_nil (cur : Bytes) (hc : wsFreeIn cur [] = true) (hv : validUtf8 (cur ++ []) = true) :
+    ∀ t ∈ splitWs [] cur, t ≠ [] ∧ WsFree t ∧ validUtf8 t = true := by
+  intro t ht
+  cases cur with
+  | nil => simp [splitWs_nil_nil] at ht
+  | cons c cs =>
+    rw [splitWs_nil_cur _ (by simp), List.mem_singleton] at ht
+    subst ht
+    exact ⟨by simp, wsFreeIn_wsFree [] _ hc, by simpa using hv⟩
+
+theorem splitWs_tokens_aux : ∀ (n : Nat) (bs cur : Bytes), bs.length ≤ n → wsFreeIn cur bs = true →
+    validUtf8 (cur ++ bs) = true → ∀ t ∈ splitWs bs cur, t ≠ [] ∧ WsFree t ∧ validUtf8 t = true := by
+  intro n
+  induction n with
+  | zero =>
+    intro bs cur hl hc hv
+    have : bs = [] := List.length_eq_zero_iff.mp (Nat.le_zero.mp hl)
+    subst this
+    exact splitWs_tokens_nil cur hc hv
+  | succ n ih =>
+    intro bs cur hl hc hv t ht
+    cases bs with
+    | nil => exact splitWs_tokens_nil cur hc hv t ht
+    | cons b bs =>
+      have hl' : bs.length ≤ n := by simpa using hl
+      cases hw : wsLen (b :: bs) with
+      | zero =>
+        rw [splitWs_cons_zero hw] at ht
+        exact ih bs (cur ++ [b]) hl' (wsFreeIn_snoc hw cur hc) (by rw [List.append_assoc]; exact hv) t ht
+      | succ k =>
+        rw [splitWs_cons_ws hw] at ht
+        have hvc : validUtf8 cur = true := validUtf8_prefixC b bs (wsLen_lead hw) cur hv
+        have hvb : validUtf8 (b :: bs) = true := by rw [validUtf8_append _ _ hvc] at hv; exact hv
+        have hrest := ih (bs.drop k) [] (by rw [List.length_drop]; omega) rfl
+          (by rw [List.nil_append]; exact wsLen_valid hw hvb)
+        by_cases hce : cur.isEmpty = true
+        · rw [if_pos hce] at ht; exact hrest t ht
+        · rw [if_neg hce] at ht
+          rcases List.mem_cons.mp ht with rfl | ht
+          · exact ⟨by simpa using hce, wsFreeIn_wsFree _ _ hc, hvc⟩
+          · exact hrest t ht
+
+/-- every token is non-empty, free of white space, and valid UTF-8 if the line is.  (`wsFreeIn cur bs`, not
+`WsFree cur`: `cur` is collected byte by byte and may end inside a character — with `cur = E2 80`, `bs = A8` the only
+token is U+2028.) -/
+theorem splitWs_tokens (bs cur : Bytes) (hc : wsFreeIn cur bs = true) (hv : validUtf8 (cur ++ bs) = true) :
+    ∀ t ∈ splitWs bs cur, t ≠ [] ∧ WsFree t ∧ validUtf8 t = true :=
+  splitWs_tokens_aux bs.length bs cur (Nat.le_refl _) hc hv
+
+/-- the hypothesis `wsFreeIn cur bs` of `splitWs_tokens` cannot be `WsFree cur` -/
+example : WsFree [0xE2, 0x80] ∧ validUtf8 ([0xE2, 0x80] ++ [0xA8]) = true ∧
+    splitWs [0xA8] [0xE2, 0x80] = [[0xE2, 0x80, 0xA8]] ∧ ¬ WsFree [0xE2, 0x80, 0xA8] := by decide
+
+/-- a non-empty line without white space is one token -/
 theorem splitWs_plain : ∀ (bs cur : Bytes), WsFree bs → cur ++ bs ≠ [] → splitWs bs cur = [cur ++ bs] := by
   intro bs
   induction bs with
@@ -269,11 +492,16 @@ theorem splitWs_plain : ∀ (bs cur : Bytes), WsFree bs → cur ++ bs ≠ [] →
     exact splitWs_nil_cur cur hne
   | cons b bs ih =>
     intro cur hw _
-    rw [splitWs]
-    have hb : isWs b = false := hw b (List.mem_cons_self ..)
-    simp only [hb, Bool.false_eq_true, if_false]
-    rw [ih (cur ++ [b]) (fun x hx => hw x (List.mem_cons_of_mem _ hx)) (by simp)]
+    unfold WsFree at hw
+    simp only [wsFree, Bool.and_eq_true, beq_iff_eq] at hw
+    rw [splitWs_cons_zero hw.1, ih (cur ++ [b]) hw.2 (by simp)]
     simp
+
+/-- and only such a line is: if the line is its own single token, it has no white space -/
+theorem splitWs_self {n : Bytes} (hv : validUtf8 n = true) (h : splitWs n [] = [n]) : n ≠ [] ∧ WsFree n :=
+  have := splitWs_tokens n [] rfl (by simpa using hv) n (by rw [h]; exact List.mem_singleton.mpr rfl)
+  ⟨this.1, this.2.1⟩
+
 
 /-! ## lines -/
 
@@ -362,8 +590,9 @@ theorem readApplied_append {a b : Bytes} (ha : Terminated10 a) {x y : List Entry
 
 /-! ## plain names -/
 
-/-- the name survives `.pc/applied-patches`: non-empty, no whitespace byte (space, `\t`, `\n`, `\v`, `\f`, `\r`),
-valid UTF-8.  (A leading `#` is fine.) -/
+/-- the name survives `.pc/applied-patches`: non-empty, no Unicode white-space character (space, `\t`, `\n`, `\v`,
+`\f`, `\r`, U+0085, U+00A0, U+1680, U+2000–U+200A, U+2028, U+2029, U+202F, U+205F, U+3000), valid UTF-8.  (A leading
+`#` is fine.) -/
 def PlainName (n : Bytes) : Prop := n ≠ [] ∧ WsFree n ∧ validUtf8 n = true
 
 instance (n : Bytes) : Decidable (PlainName n) := inferInstanceAs (Decidable (_ ∧ _ ∧ _))
@@ -377,13 +606,13 @@ theorem stripCr_plain {n : Bytes} (h : WsFree n) : stripCr n = n := by
   · rename_i hl
     simp only [beq_iff_eq] at hl
     have hm : (13 : UInt8) ∈ n := List.mem_of_getLast? hl
-    have := h 13 hm
+    have := h.isWs_false 13 hm
     simp [isWs] at this
   · rfl
 
 theorem not_mem_10 {n : Bytes} (h : WsFree n) : (10 : UInt8) ∉ n := by
   intro hm
-  have := h 10 hm
+  have := h.isWs_false 10 hm
   simp [isWs] at this
 
 /-- **a plain name, written on a line of its own, reads back as itself** -/
@@ -400,6 +629,18 @@ theorem plainName_readApplied {n : Bytes} (h : PlainName n) :
   simp only [hne, Bool.false_eq_true, if_false]
   rw [splitWs_plain n [] hw (by simpa using h0), List.nil_append]
   simp only [collectA]
+
+/-- `PlainName`, said with `splitWs`: valid UTF-8 that is its own single token -/
+theorem plainName_iff_splitWs (n : Bytes) : PlainName n ↔ validUtf8 n = true ∧ splitWs n [] = [n] :=
+  ⟨fun ⟨h0, hw, hv⟩ => ⟨hv, by simpa using splitWs_plain n [] hw (by simpa using h0)⟩,
+   fun ⟨hv, h⟩ => ⟨(splitWs_self hv h).1, (splitWs_self hv h).2, hv⟩⟩
+
+/-- U+00A0 inside a name: no ASCII white-space byte, valid UTF-8, but not plain — the line `p<U+00A0>q` is the name `p`
+with the free argument `q` -/
+example : ¬ PlainName [112, 0xC2, 0xA0, 113] := by decide
+example : ∀ b ∈ ([112, 0xC2, 0xA0, 113] : Bytes), isWs b = false := by decide
+/-- U+200B (zero-width space) is not white space -/
+example : PlainName [112, 0xE2, 0x80, 0x8B, 113] := by decide
 
 /-! ## names that come out of a series file are plain -/
 
@@ -446,7 +687,7 @@ theorem validUtf8_stripCr {l : Bytes} (h : validUtf8 l = true) : validUtf8 (stri
   · exact h
 
 theorem token_plain {l t : Bytes} (hv : validUtf8 l = true) (ht : t ∈ splitWs (stripCr l) []) : PlainName t :=
-  splitWs_tokens (stripCr l) [] (fun _ h => nomatch h) (by simpa using validUtf8_stripCr hv) t ht
+  splitWs_tokens (stripCr l) [] rfl (by simpa using validUtf8_stripCr hv) t ht
 
 theorem collect_names_plain : ∀ (ls : List Bytes) (es : List Entry), collect ls = .ok es →
     ∀ e ∈ es, PlainName e.name := by
@@ -514,6 +755,11 @@ theorem plainName_iff (n : Bytes) :
   ⟨plainName_readApplied, fun h => readApplied_names_plain h _ (List.mem_singleton.mpr rfl)⟩
 
 #print axioms plainName_iff
+#print axioms plainName_iff_splitWs
+#print axioms plainName_readApplied
 #print axioms readSeries_names_plain
+#print axioms readApplied_names_plain
+#print axioms splitWs_tokens
+#print axioms splitWs_plain
 
 end RQ.Series
